@@ -57,7 +57,7 @@ fn binary_case(op: usize) -> impl Fn(Tier) -> BoxedStrategy<Case> + Send + Sync 
                 if positive {
                     cfg = cfg.positive();
                 }
-                gen::stream(cfg).prop_map(move |xs| Case { spec: Some(a.clone()), spec2: Some(b.clone()), xs, ints: vec![op as i64, scalar], a: Rat(1, 1), ..Default::default() })
+                gen::stream_nz(cfg).prop_map(move |xs| Case { spec: Some(a.clone()), spec2: Some(b.clone()), xs, ints: vec![op as i64, scalar], a: Rat(1, 1), ..Default::default() })
             })
             .boxed()
     }
